@@ -15,8 +15,8 @@ LEAN_TARGETS = ['VivProps.C19']
 DRIVER = 'Timeline'
 REQUIRED_THEOREMS = [
     'init_sorted', 'init_times', 'init_event_at', 'init_order_invariant', 'init_perm_distinct',
-    'nextUpdate_pops_due', 'fire_once', 'fired_exactly_once', 'tick_sets_last_write',
-    'any_order', 'schedule_total',
+    'nextUpdate_pops_due', 'fire_once', 'fired_exactly_once', 'tick_sets_last_write_partial',
+    'compound_collision_combines', 'run_eq_spec', 'engine_fire_once', 'any_order', 'schedule_total',
 ]
 ANCHORS = [
     ('vivarium/processes/timeline.py', ['nested_set', 'TimelineProcess.initialize_timeline',
